@@ -195,6 +195,7 @@ var fatChoice = []bool{false, false, false, false, false, false, false, true, fa
 func TestPropSeriesFile(t *testing.T) {
 	t.Cleanup(removeFatTemplate)
 	rec.Assume("torn append model: the image of a crash during a segment append is the old file content plus a prefix of the appended bytes, the rest of the pre-allocated file still zero; data in other files is as of the moment before the append; OS-level loss or reordering of un-fsynced data is not modelled (the scratch file system is tmpfs)")
+	rec.Assume("a torn append on a history that already continues on a torn image is built the same way (everything from the cut to the end of the appended bytes is zero): up to 9 bytes of an earlier torn insert header, which recovery leaves in the file in front of the data end until the next flush overwrites them, are zeroed rather than kept behind the cut, so the byte mix 'prefix of the new entry + rest of the old fragment' (two crashes at the same offset) is not generated")
 	rec.Assume("deletes issued with NoFlush count as durable only after FlushSegments / a later flushing operation on the same partition / a clean close, as in the production callers (Engine.deleteSeriesRange, Store.DeleteShard)")
 	rec.Assume("SeriesCount and SeriesIDIterator are only bounded (live ids are listed; count between live and ever-issued): both include deleted series by design; they are not checked after a torn image was adopted")
 	nEnum := 4
